@@ -513,3 +513,38 @@ Example whole_program_creation :
   rr_exit r1 = 0 /\ lookup (fs (rr_world r1)) (bs "f") = Some (Reg rex_dataA 420) /\
   rr_exit r2 = 0 /\ fs (rr_world r2) = fs w.
 Proof. vm_compute. repeat split; reflexivity. Qed.
+
+(* ===== merged from Properties_WholeRename.v (-R of a pure rename) ===== *)
+From PatchV Require Import Base Lines Hunk Locator Formatter Options Applier LineParser Parser World Driver
+     Spec_Locate Spec_Apply Spec_Names Proofs_Base Proofs_Lines Proofs_Unified Proofs_Filler Proofs_Conf Proofs_World Proofs_Reverse
+     Proofs_Sections Proofs_Sections_Unified Proofs_Touch Proofs_Whole Proofs_WholeGit Proofs_WholeNames Proofs_WholeRename.
+Theorem pure_rename_reverse : forall o f0 fl tl oldn newn sim w data mode m1 m4,
+  plain_options o -> reverse_patch_opt o = true -> format_from_options o = Ok f0 ->
+  Forall (Filler (strip_size o) (empty_patch f0)) fl -> Forall clean fl -> Forall (Trailing (strip_size o)) tl ->
+  hd 0%N oldn <> 34%N -> hd 0%N newn <> 34%N -> clean oldn -> clean newn -> clean sim ->
+  fault w = None ->
+  rename_ready (fs w) (ext_name (strip_size o) (bs "b/") newn) (ext_name (strip_size o) (bs "a/") oldn) data mode ->
+  rename_permitted (fs w) (umask w) (ext_name (strip_size o) (bs "b/") newn) (ext_name (strip_size o) (bs "a/") oldn) data mode m1 m4 ->
+  rewritten o data = data ->
+  exists w',
+    process_patch o (join_lines (fl ++ rename_lines ((bs "a/" ++ oldn) ++ bs " b/" ++ newn) sim oldn newn ++ tl)) w = (Ok (0, []), w') /\
+    fs w' = m4 /\ fault w' = None /\ umask w' = umask w /\
+    moved_to (fs w) (umask w) (ext_name (strip_size o) (bs "b/") newn) (ext_name (strip_size o) (bs "a/") oldn) data mode (fs w').
+Proof. exact Proofs_WholeRename.pure_rename_reverse. Qed.
+Print Assumptions pure_rename_reverse.
+
+Theorem pure_rename_reverse_quoted : forall o f0 fl tl oldn newn sim w data mode m1 m4,
+  plain_options o -> reverse_patch_opt o = true -> format_from_options o = Ok f0 ->
+  Forall (Filler (strip_size o) (empty_patch f0)) fl -> Forall clean fl -> Forall (Trailing (strip_size o)) tl ->
+  bytes oldn -> bytes newn -> clean sim ->
+  fault w = None ->
+  rename_ready (fs w) (ext_name (strip_size o) (bs "b/") newn) (ext_name (strip_size o) (bs "a/") oldn) data mode ->
+  rename_permitted (fs w) (umask w) (ext_name (strip_size o) (bs "b/") newn) (ext_name (strip_size o) (bs "a/") oldn) data mode m1 m4 ->
+  rewritten o data = data ->
+  exists w',
+    process_patch o (join_lines (fl ++ rename_lines (cquote (bs "a/" ++ oldn) ++ bs " " ++ cquote (bs "b/" ++ newn)) sim
+                                                     (cquote oldn) (cquote newn) ++ tl)) w = (Ok (0, []), w') /\
+    fs w' = m4 /\ fault w' = None /\ umask w' = umask w /\
+    moved_to (fs w) (umask w) (ext_name (strip_size o) (bs "b/") newn) (ext_name (strip_size o) (bs "a/") oldn) data mode (fs w').
+Proof. exact Proofs_WholeRename.pure_rename_reverse_quoted. Qed.
+Print Assumptions pure_rename_reverse_quoted.
